@@ -149,6 +149,13 @@ pub const REF_CALL_LIMIT: usize = 40_000;
 /// Runs the plain VM with a listener that records every rule entry and never aborts.
 /// Returns None when the parse needs more than REF_CALL_LIMIT calls (workload is discarded).
 pub fn reference_run(rules: &[OptimizedRule], rule: &str, input: &str) -> Option<RunRef> {
+    // a grammar whose plain parse panics (POP / PEEK on an empty stack — documented) is discarded
+    let r = std::panic::catch_unwind(std::panic::AssertUnwindSafe(|| reference_run_inner(rules, rule, input)));
+    pest::set_call_limit(None);
+    r.ok().flatten()
+}
+
+fn reference_run_inner(rules: &[OptimizedRule], rule: &str, input: &str) -> Option<RunRef> {
     let rec: Arc<std::sync::Mutex<Vec<(String, usize)>>> = Arc::new(std::sync::Mutex::new(Vec::new()));
     let rec2 = rec.clone();
     let vm = pest_vm::Vm::new_with_listener(
